@@ -21,6 +21,17 @@ CHECKS = {
             "Trusts the ASTM transcription in refs/astm_rainflow.py (explicit start marker) and gcc; "
             "numba-jitted variant not executable here (numba absent).", "3/C05"),
 }
+CHECKS["C12"] = (
+    "exhaustive decade x rounding-sensitive-mantissa grid + Hypothesis doubles/cards; exact-rational "
+    "accuracy oracle; write->read round trip; fixed vs independently written comma form",
+    "Generated-input search: ~1e5 (thorough) doubles per formatter from an enumerated decade x mantissa "
+    "grid plus Hypothesis floats at the formatter branch thresholds; field width, Nastran syntax, exact "
+    "rational error against the best digits the width allows, and nas_sscanf == correctly rounded text. "
+    "Cards of 1..60 mixed fields round-trip through wtcard8/16/16d and rdcards, and an independently "
+    "written comma form must read identically.",
+    "Trusts Python Fraction/Decimal/float(); 'best precision' is computed for normalised-mantissa "
+    "renderings; values rounding to 1e7/1e15 print without a decimal point (observation O1, numerically fine).",
+    "3/C12")
 
 NOT_APPLICABLE = {
 }
